@@ -371,7 +371,12 @@ def correspond(ctx):
     cases = build_cases(ctx)
     ctx.log("cases:", len(cases))
     if ctx.tier != "quick":
-        ctx.notes.setdefault("coverage_extra", {})["exhaustive"] = "T<=8 x chunk 0..9 x stride 1..4 x skip 0..T per format"
+        ce = ctx.notes.setdefault("coverage_extra", {})
+        ce["exhaustive"] = True
+        ce["exhaustive_scope"] = ("per format: iterload over T 1..8 x chunk 0..9 x stride 1..4 x skip 0..T; load over T x stride 1..4 x "
+                                  "4 atom choices; load(frame)/load_frame over T x every frame; load([..]) over all lists of 1..3 files "
+                                  "with sizes in {1,2,3,5} x stride 1..3. The atom subset is NOT a product axis of iterload/load_frame/"
+                                  "load([..]): it rotates through {None,[0],[1,3],[0,2,3]} from case to case.")
     run_cases(ctx, cases)
 
 
